@@ -120,8 +120,8 @@ void runRandom(const Opt &o, Ev &ev, const std::string &sub, int maxChoices, int
     p.maxSuccess = nCases;
     p.maxSize = 100;
     p.maxDiscardRatio = 10;
-    std::vector<uint32_t> lastFail;
-    std::string lastMsg;
+    std::vector<uint32_t> lastFail, firstFail;
+    std::string lastMsg, firstMsg;
     bool any = false;
     auto gen = choiceGen(maxChoices);
     long shrinkBudget = g_shrinkBudget;   // property executions spent on shrinking; afterwards candidates are declined
@@ -134,6 +134,7 @@ void runRandom(const Opt &o, Ev &ev, const std::string &sub, int maxChoices, int
         std::string m = body(s, ev);
         disarmCase();
         if (!m.empty()) {
+            if (!any) { firstFail = v; firstMsg = m; }
             any = true;
             ev.frozen = true;      // everything from here on is shrinking
             lastFail = v;
@@ -151,6 +152,11 @@ void runRandom(const Opt &o, Ev &ev, const std::string &sub, int maxChoices, int
         while (!lastFail.empty() && lastFail.back() == 0) lastFail.pop_back();
         std::string path = writeReplay(o, sub, choicesText(sub, lastFail));
         ev.failures.push_back({sub, path, lastMsg});
+        // the case as first generated is kept as well: if the failure depended on something outside the case (state the library
+        // keeps outside its context, left behind by an earlier case), shrinking can end on a case that does not fail when replayed
+        // alone, while the original - which may contain the whole cause - still does
+        while (!firstFail.empty() && firstFail.back() == 0) firstFail.pop_back();
+        if (firstFail != lastFail) ev.failures.push_back({sub, writeReplay(o, sub, choicesText(sub, firstFail)), firstMsg + "   [the case as first generated, before shrinking]"});
     }
 }
 
